@@ -74,7 +74,7 @@ fn algorithm::write_step_digits as write_step_digits_u64
   sub /value: T,/ => /value: u64,/
   sub /debug_assert_radix\(radix\);/ => /assert(2 <= radix && radix <= 36);/
   sub /write_digits\(/ => /write_digits_u64(/
-  sub /zeros\.fill\(b'0'\);/ => /vx_fill(zeros, b'0');/
+  sub /zeros\.fill\((b'\d')\);/ => /vx_fill(zeros, \1);/
   spec <<<
     requires 2 <= radix <= 36, table_ok(table@, radix as nat), old(buffer).len() >= count, index <= old(buffer).len(),
         step >= 1, index >= step, (value as nat) < pwl(radix as nat, step as nat),
@@ -88,7 +88,7 @@ fn algorithm::write_step_digits as write_step_digits_u64
   before /let end =/ <<<
         let ghost b1 = buffer@;
 >>>
-  after /vx_fill\(zeros, b'0'\);/ <<<
+  after /vx_fill\(zeros, b'\d'\);/ <<<
         proof {
             let nd = ndigits(value as nat, radix as nat);
             assert(buffer@.subrange(end as int, start as int) =~= zeroseq((step - nd) as nat) + numeral(value as nat, radix as nat)) by {
